@@ -294,3 +294,27 @@ def run_step_kind(case):
 
 
 HANDLERS['step_kind'] = run_step_kind
+
+
+def run_multi(case):
+    """several processor instances in one process: build them in order, step them in the given interleaving, and
+    return the final state of instance `probe` ([0] + dump, or the exception encoding of its last failing step + dump)"""
+    import implrun
+    arms = [build(st) for st in case['states']]
+    last_exn = [None] * len(arms)
+    with contextlib.redirect_stdout(io.StringIO()):
+        for i in case['sched']:
+            try:
+                arms[i].emulate_cycle()
+                last_exn[i] = None
+            except Exception as e:  # noqa
+                last_exn[i] = e
+    i = case['probe']
+    try:
+        tail = dump(arms[i])
+    except Exception:
+        return [9, 9]
+    return ([0] if last_exn[i] is None else implrun.exn_enc(last_exn[i])) + tail
+
+
+HANDLERS['multi'] = run_multi
